@@ -34,6 +34,60 @@ def _overlay(ctx, name, rendered):
                        name="overlay %s %s" % (pkg, test))
 
 
+def _short_func(fn):
+    fn = fn.rsplit("/", 1)[-1]
+    for part in reversed(fn.split(".")[1:]):
+        if not part or part.startswith("func") or part.startswith("(") or part[0].isdigit():
+            continue
+        return part
+    return fn
+
+
+def _go_test_crash_aware(ctx, pkg, **kw):
+    """A panic in a goroutine that the code under test starts itself (IncomingHandshake, OutgoingHandshake and the
+    proto handshakes run their body in one) cannot be recovered by the harness: the test binary dies without a
+    report.  The harness leaves a breadcrumb (the case it was delivering); if the dying goroutine is inside the
+    repository's code, that is the code under test failing on that case -> violation.  Go fatal errors (out of
+    memory ...) and crashes outside the repository stay a broken check."""
+    import json
+    import re
+    crumb = os.path.join(ctx.scratch, "crumb-%d.json" % len(ctx.cov["harness_runs"]))
+    env = dict(kw.pop("env", None) or {})
+    env.update({"VERIF_CRUMB": crumb, "GOTRACEBACK": "single"})
+    try:
+        return ctx.go_test(pkg, env=env, **kw)
+    except Exception as ex:  # lib/vf.py runs as __main__: its CheckBroken is not importable as the same class
+        if type(ex).__name__ != "CheckBroken":
+            raise
+        msg = str(ex)
+        m = re.search(r"^panic: (.*)$", msg, re.M)
+        if not m or not os.path.exists(crumb):
+            raise
+        dying = msg[m.start():]
+        # the first goroutine printed is the panicking one (GOTRACEBACK=single)
+        block = dying.split("\n\ngoroutine ", 2)
+        trace = block[1] if len(block) > 1 else dying
+        site = None
+        for fm in re.finditer(r"^(github\.com/anyproto/any-sync/[^\s(]+(?:\([^)]*\))?[^\s(]*)\(", trace, re.M):
+            site = _short_func(fm.group(1))
+            break
+        if site is None:
+            raise
+        ro = json.load(open(crumb))
+        g, c = ro["group"], ro["case"]
+        field = c["op"]
+        if c.get("path"):
+            last = c["path"][-1].replace("@last", "")
+            field = last[:1].upper() + last[1:]
+        key = "/".join([g["ep"], c.get("cls") or "unclassified", field, site])
+        ro["result"] = {"outcome": "panic", "panic_site": site, "panic_val": m.group(1)[:300],
+                        "note": "unrecoverable: raised in a goroutine started by the code under test; the test binary died",
+                        "stack": trace[:4000]}
+        ctx.violation(key, "%s[%s@%s] %s:%s -> panic in %s (in a goroutine of the code under test; the process died): %s"
+                      % (g["ep"], g["v"], g["st"], ".".join(c.get("path") or []), c["op"], site, m.group(1)[:200]), ro)
+        return {"extra": {}, "violations": [], "cases": 0, "crashed": True}
+
+
 def run(ctx):
     thorough = ctx.tier == "thorough"
     if ctx.replay:
@@ -47,7 +101,7 @@ def run(ctx):
                 fh.write(json.dumps({"g": ro["group"], "c": ro["case"], "hex": ro["rendered_hex"]}) + "\n")
             _overlay(ctx, ro["overlay"], rendered)
         else:
-            ctx.go_test("./hostile", run="TestReplay$", timeout=1800)
+            _go_test_crash_aware(ctx, "./hostile", run="TestReplay$", timeout=1800)
         return
     # 1. TLC: enumerate all cases and both outcomes (OutcomeOK, ASSUME CoverageComplete) and emit the groups
     emit = os.path.join(ctx.scratch, "emit")
@@ -66,8 +120,16 @@ def run(ctx):
     rendered = os.path.join(ctx.scratch, "rendered")
     os.makedirs(rendered)
     gen = os.path.join(ctx.scratch, "HostileSchema.tla")
-    rep = ctx.go_test("./hostile", run="TestCases$", timeout=5400 if thorough else 1500,
-                      env={"VERIF_CASES": emit, "VERIF_RENDERED_DIR": rendered, "VERIF_GEN_SCHEMA": gen})
+    # the handshake entry point runs in a process of its own: its functions execute in goroutines they start
+    # themselves, so a panic there takes the test binary down (classified from the crash, see above)
+    rep = _go_test_crash_aware(ctx, "./hostile", run="TestCases$", timeout=5400 if thorough else 1500,
+                               env={"VERIF_CASES": emit, "VERIF_RENDERED_DIR": rendered, "VERIF_GEN_SCHEMA": gen,
+                                    "VERIF_SKIP": "handshake."}, name="./hostile TestCases$ (all but handshake)")
+    hrep = _go_test_crash_aware(ctx, "./hostile", run="TestCases$", timeout=1500,
+                                env={"VERIF_CASES": emit, "VERIF_ONLY": "handshake."}, name="./hostile TestCases$ (handshake)")
+    if rep.get("crashed") or hrep.get("crashed"):
+        # a crash of the code under test was reported as a violation; the coverage bookkeeping of that process is lost
+        return
     # the schema module of the specification must be the one the repository's descriptors give
     from vf import VERIF
     committed = open(os.path.join(VERIF, "spec", "hostile", "HostileSchema.tla")).read()
@@ -80,6 +142,8 @@ def run(ctx):
         raise _broken("entry points of the specification without a binding: %s" % extra["unbound_entry_points"])
     executed = dict(extra.get("executed") or {})
     outcomes = dict(extra.get("outcomes") or {})
+    executed.update((hrep.get("extra") or {}).get("executed") or {})
+    outcomes.update((hrep.get("extra") or {}).get("outcomes") or {})
     # 2b. entry points that are unexported: delivered by an overlay test inside their package
     for name in sorted(OVERLAYS):
         path = os.path.join(rendered, name + ".jsonl")
